@@ -198,6 +198,12 @@ def _chain_task(t):
             data, samples = runs.load_input(t["file"], outlier_prob=t["outlier_prob"], density=t["density"], grid_size=t["grid_size"])
     except Exception as e:
         return {"t": t, "crash": {"type": type(e).__name__, "msg": str(e)[:200], "tb": traceback.format_exc()[-1800:], "site": "load:" + call_site(traceback.format_exc())}}
+    if t.get("input_kind") == "heavy":
+        # data points as heavy as pre-clustered input with hundreds of mutations per cluster / very deep, many-sample data:
+        # every grid value thousands of nats below zero (valid log-likelihoods; only log-space arithmetic survives them)
+        from phyclone.data.base import DataPoint
+
+        data = [DataPoint(d.idx, d.value - 900.0 * (1 + d.idx), name=d.name, outlier_prob=d.outlier_prob, outlier_prob_not=d.outlier_prob_not) for d in data]
     from phyclone.utils.dev import clear_proposal_dist_caches
 
     clear_proposal_dist_caches()
@@ -282,6 +288,9 @@ def make_inputs(ctx):
     p = os.path.join(d, "in_zero_depth_single.tsv")
     runs.write_input(p, runs.make_rows(r, 1, 1, depth=(8, 30), zero_depth=(0,)))
     files.append((p, 1, 1, "zero-depth"))
+    p = os.path.join(d, "in_heavy.tsv")
+    runs.write_input(p, runs.make_rows(r, 3, 2, depth=(8, 30)))
+    files.append((p, 3, 2, "heavy"))
     return files
 
 
@@ -302,6 +311,12 @@ def part_b(ctx, pool):
             c2 = dict(zip(names, product[0]))
             c2.update(proposal=prop, outlier_prob=0.4, subtree_update_prob=max(dom["subtree_update_prob"]), num_particles=2, num_iters=4, max_time=float("inf"))
             picked.append((tuple(c2[n] for n in names), files[2]))
+        heavy = [f for f in files if f[3] == "heavy"][0]
+        for prop in dom["proposal"]:
+            for op_ in (0.0, 0.4):
+                c3 = dict(zip(names, ctx.rng.choice(product)))
+                c3.update(proposal=prop, outlier_prob=op_, num_particles=3, num_iters=3, max_time=float("inf"), burnin=2, subtree_update_prob=0.5 if op_ else 0.0)
+                picked.append((tuple(c3[n] for n in names), heavy))
     else:
         r = ctx.rng
         picked = full if len(full) <= 12000 else r.sample(full, 12000)
